@@ -619,3 +619,168 @@ def c01_phi_1D_genic():
         out.append(struct(oid + '.paths', len(paths) >= 2, '%d paths' % len(paths), fn, undecided=len(paths) < 2))
         return out
     return go()
+
+
+# ---------------------------------------------------------------- C03 / C04: mutation influx
+def c04_inject(K):
+    """_inject_mutations_KD: for every flag pattern, phi changes exactly at the unit vectors e_k of the populations that are neither
+    frozen nor nomut, and  w(e_k) * x_k[1] * (phi_new - phi_old)[e_k] = dt*theta0/2  (w = K-dimensional trapezoid weight, grids start at 0):
+    the influx is theta0/2 per unit time per mutating population, whatever the grid; nothing else is touched."""
+    oid = 'C04/Integration.py:_inject_mutations_%dD' % K
+    fn = 'dadi/Integration.py::_inject_mutations_%dD' % K
+
+    @guarded(oid, fn)
+    def go():
+        ex = Executor()
+        f = ex.func('dadi/Integration.py', '_inject_mutations_%dD' % K)
+        params = [a.arg for a in f.node.args.args]
+        grids = [VList([z3.RealVal(0)] + reals('%s_' % g, 2), 'ndarray') for g in GRIDS[:K]]
+        dt, th = z3.Reals('dt theta0')
+        hy = []
+        for g in grids:
+            hy += [g.items[1] > 0, g.items[2] > g.items[1]]
+        out = []
+        flagnames = [p for p in params if p.startswith('frozen') or p.startswith('nomut')]
+        for combo in itertools.product([False, True], repeat=len(flagnames)):
+            flags = dict(zip(flagnames, combo))
+            phi = Tm('phi')
+            args = []
+            gi = iter(grids)
+            for p in params:
+                if p == 'phi':
+                    args.append(phi)
+                elif p == 'dt':
+                    args.append(dt)
+                elif p == 'theta0':
+                    args.append(th)
+                elif p in GRIDS:
+                    args.append(grids[GRIDS.index(p)])
+                else:
+                    args.append(flags[p])
+            paths = ex.run(f, args, base_pc=hy)
+            tag = ''.join('1' if c else '0' for c in combo) or 'noflags'
+            if len(paths) != 1 or paths[0].outcome != 'return':
+                out.append(struct('%s.%s' % (oid, tag), False, 'expected one returning path: %r' % paths, fn))
+                continue
+            p = paths[0]
+            sets = [(e[2], e[3]) for e in p.log if e[0] == 'setitem' and e[1] is phi]
+            active = [k for k in range(K) if not flags.get('frozen%d' % (k + 1), False) and not flags.get('nomut%d' % (k + 1), False)]
+            want_keys = [tuple(1 if i == k else 0 for i in range(K)) if K > 1 else 1 for k in active]
+            got_keys = [k for k, v in sets]
+            out.append(struct('%s.%s.support' % (oid, tag), got_keys == want_keys and p.value is phi,
+                              'writes exactly at %s (got %s) and returns phi' % (want_keys, got_keys), fn, finding_key='C04/inject/%dD/support' % K))
+            for (key, val), k in zip(sets, active):
+                if got_keys != want_keys:
+                    break
+                ok = isinstance(val, Tm) and val.op == 'op:Add' and isinstance(val.args[0], Tm) and val.args[0].op == 'getitem' and val.args[0].args[0] is phi and val.args[0].args[1] == key
+                if not ok:
+                    out.append(struct('%s.%s.increment%d' % (oid, tag, k + 1), False, 'not an increment of the old value: %s' % vrepr(val)[:120], fn))
+                    continue
+                inc = val.args[1]
+                w = (grids[k].items[2] - grids[k].items[0]) / 2
+                for l in range(K):
+                    if l != k:
+                        w = w * (grids[l].items[1] / 2)
+                out.append(prove_eq('%s.%s.increment%d' % (oid, tag, k + 1), p.pc, w * grids[k].items[1] * to_real(inc), dt * th / 2, func=fn, timeout_ms=20000,
+                                    finding_key='C04/inject/%dD/amount' % K))
+        return out
+    return go()
+
+
+def c03_compute_dt():
+    """_compute_dt(dx, c nu, ms/c, gamma/c, h) == c * _compute_dt(dx, nu, ms, gamma, h)  on every pair of paths (new time-step rule)"""
+    oid = 'C03/Integration.py:_compute_dt/rescale'
+    fn = 'dadi/Integration.py::_compute_dt'
+
+    @guarded(oid, fn)
+    def go():
+        from vf import smt
+        out = []
+        for nm in (1, 2):
+            ex = Executor(max_paths=600)
+            f = ex.func('dadi/Integration.py', '_compute_dt')
+            nu, g, h, c = z3.Reals('nu gamma h c')
+            ms = reals('m', nm)
+            dx = Tm('dx')
+            hy = [nu > 0, c > 0] + [m >= 0 for m in ms]
+            ex.module_overrides[('dadi.Integration', 'use_old_timestep')] = False
+            tsf = z3.Real('timescale_factor')
+            ex.module_overrides[('dadi.Integration', 'timescale_factor')] = tsf
+            hy.append(tsf > 0)
+            p0 = ex.run(f, [dx, nu, VList(ms), g, h], base_pc=hy)
+            p1 = ex.run(f, [dx, c * nu, VList([m / c for m in ms]), g / c, h], base_pc=hy)
+            n = 0
+            for i, a in enumerate(p0):
+                for j, b in enumerate(p1):
+                    pc = a.pc + b.pc[len(hy):]
+                    if smt.sat(pc, timeout_ms=3000) is False:
+                        continue
+                    n += 1
+                    o = '%s.m%d.pair%d_%d' % (oid, nm, i, j)
+                    if a.outcome != b.outcome:
+                        out.append(struct(o, False, 'one run %s, the rescaled one %s' % (a.outcome, b.outcome), fn))
+                    elif a.outcome == 'raise':
+                        out.append(struct(o, a.exc.kind == b.exc.kind, 'both raise %s' % a.exc.kind, fn))
+                    elif isinstance(a.value, Tm) or isinstance(b.value, Tm):
+                        out.append(struct(o, vrepr(a.value) == vrepr(b.value), 'both return %s' % vrepr(a.value), fn))
+                    else:
+                        out.append(prove_eq(o, pc, b.value, c * to_real(a.value), func=fn, timeout_ms=20000))
+            out.append(struct('%s.m%d.pairs' % (oid, nm), n >= 1, '%d jointly feasible path pairs' % n, fn))
+        return out
+    return go()
+
+
+# ---------------------------------------------------------------- C04: frozen populations with migration are rejected
+def pure_bool(ex, e, env, mod):
+    """z3 Bool of a side-effect-free boolean expression (no path forking): and/or/not/compare over scalars"""
+    if isinstance(e, ast.BoolOp):
+        parts = [pure_bool(ex, v, env, mod) for v in e.values]
+        return z3.And(*parts) if isinstance(e.op, ast.And) else z3.Or(*parts)
+    if isinstance(e, ast.UnaryOp) and isinstance(e.op, ast.Not):
+        return z3.Not(pure_bool(ex, e.operand, env, mod))
+    v = ex.eval(e, env, mod)
+    if isinstance(v, bool):
+        return z3.BoolVal(v)
+    if isinstance(v, z3.ExprRef):
+        return v if z3.is_bool(v) else v != 0
+    raise Unsupported('non-scalar in a guard: %s' % vrepr(v))
+
+
+def c04_frozen_migration(name, K):
+    oid = 'C04/Integration.py:%s/frozen-with-migration-rejected' % name
+    fn = 'dadi/Integration.py::' + name
+
+    @guarded(oid, fn)
+    def go():
+        from vf.pyvc import Env
+        mod = ModInfo.load('dadi/Integration.py')
+        node = mod.funcs[name]
+        guard = None
+        for st in node.body:
+            if isinstance(st, ast.If) and any(isinstance(s, ast.Raise) for s in st.body) and 'frozen' in ast.unparse(st.test):
+                guard = st
+                break
+        if guard is None:
+            return [struct(oid, False, 'no top-level guard raising on frozen populations found', fn, finding_key='C04/frozen-migration/%s' % name)]
+        kind = ast.unparse(guard.body[0])
+        ex = Executor()
+        env = Env(None, mod)
+        fr = {i: z3.Bool('frozen%d' % i) for i in range(1, K + 1)}
+        ms = {(i, j): z3.Real('m%d%d' % (i, j)) for i in range(1, K + 1) for j in range(1, K + 1) if i != j}
+        for i, b in fr.items():
+            env.vars['frozen%d' % i] = b
+        for (i, j), m in ms.items():
+            env.vars['m%d%d' % (i, j)] = m
+        from vf.pyvc import PathCtx
+        ex.ctx = PathCtx([], [], ex)
+        test = pure_bool(ex, guard.test, env, mod)
+        spec = z3.Or(*[z3.And(fr[k], z3.Or(*[ms[(i, j)] != 0 for (i, j) in ms if k in (i, j)])) for k in fr])
+        out = [struct(oid + '.raises-ValueError', 'ValueError' in kind, kind[:80], fn),
+               prove(oid + '.iff', [], test == spec, func=fn, timeout_ms=20000, finding_key='C04/frozen-migration/%s' % name)]
+        # the guard comes before any integration work: only parameter checks precede it
+        idx = node.body.index(guard)
+        early = all(isinstance(s, (ast.Expr, ast.If, ast.Assign)) for s in node.body[:idx]) and not any(
+            isinstance(c, ast.Call) and getattr(c.func, 'attr', '').startswith(('implicit_', '_inject')) for s in node.body[:idx] for c in ast.walk(s))
+        out.append(struct(oid + '.before-integration', early, 'the guard precedes every integration call', fn))
+        return out
+    return go()
